@@ -9,6 +9,12 @@
 //!    right address, right length, little-endian decode, capability guard, no panic;
 //!  * the **Lean model** (`drv_c13`, `CamVerif.Model.RegMap` driven by the generated
 //!    accessor table `CamVerif.Gen.RegMap`).
+//!
+//! Every accessor is also run on a SECOND `DeviceControl` implementation, the scripted stateful
+//! device `ScriptDev` (history-dependent contents, periodic failures with varying error values,
+//! short reads), and compared with the model's accessors over an arbitrary device (`accg`
+//! requests: `runNamedG` / `RRow.runG` of `Proofs/C13Struct.lean` / `Proofs/C13More.lean`);
+//! oracle there: the device's error is returned unchanged, no call after it, no panic.
 
 use camharness::*;
 use cameleon::u3v::register_map::*;
@@ -156,6 +162,83 @@ impl DeviceControl for ConstDev {
         Ok(())
     }
     fn write(&mut self, _: u64, _: &[u8]) -> ControlResult<()> { Ok(()) }
+    fn genapi(&mut self) -> ControlResult<String> { Err(ControlError::NotOpened) }
+    fn enable_streaming(&mut self) -> ControlResult<()> { Err(ControlError::NotOpened) }
+    fn disable_streaming(&mut self) -> ControlResult<()> { Err(ControlError::NotOpened) }
+}
+
+/// Second `DeviceControl` implementation (mirror of `scriptDev` in lean/Driver/C13.lean): a
+/// STATEFUL device, nothing like a memory.  Call number `n` (counted from `n0`) fails iff
+/// `k > 0 && n % k == 0`, with an error value that varies with `n / k`; a successful read
+/// delivers only `min(len, short)` bytes (the rest of the caller's buffer is left alone) and
+/// byte `i` is `noise(seed ^ n, addr + i) & mask`, i.e. the contents depend on the history.
+/// The real accessors run on it are compared with the model's accessors over an ARBITRARY
+/// device (`runNamedG` / `RRow.runG`) instantiated with the same script.
+struct ScriptDev {
+    seed: u64,
+    k: u64,
+    short: usize,
+    mask: u8,
+    n: u64,
+    log: Vec<Access>,
+    /// the first error this device returned, and how many calls were made after it
+    failed: Option<&'static str>,
+    after_failure: u32,
+}
+
+impl ScriptDev {
+    fn step(&mut self) -> Result<u64, ControlError> {
+        if self.failed.is_some() {
+            self.after_failure += 1;
+        }
+        self.n += 1;
+        if self.k > 0 && self.n % self.k == 0 {
+            let (e, name) = match (self.n / self.k) % 3 {
+                0 => (ControlError::Busy, "Busy"),
+                1 => (ControlError::Timeout, "Timeout"),
+                _ => (ControlError::Disconnected, "Disconnected"),
+            };
+            if self.failed.is_none() {
+                self.failed = Some(name);
+            }
+            return Err(e);
+        }
+        Ok(self.n)
+    }
+}
+
+impl DeviceControl for ScriptDev {
+    fn open(&mut self) -> ControlResult<()> { Ok(()) }
+    fn close(&mut self) -> ControlResult<()> { Ok(()) }
+    fn is_opened(&self) -> bool { true }
+    fn read(&mut self, address: u64, buf: &mut [u8]) -> ControlResult<()> {
+        match self.step() {
+            Err(e) => {
+                self.log.push(Access { write: false, addr: address, len: buf.len(), data: None });
+                Err(e)
+            }
+            Ok(n) => {
+                let m = buf.len().min(self.short);
+                for (i, x) in buf[..m].iter_mut().enumerate() {
+                    *x = noise(self.seed ^ n, address.wrapping_add(i as u64)) & self.mask;
+                }
+                self.log.push(Access { write: false, addr: address, len: buf.len(), data: Some(buf[..m].to_vec()) });
+                Ok(())
+            }
+        }
+    }
+    fn write(&mut self, address: u64, data: &[u8]) -> ControlResult<()> {
+        match self.step() {
+            Err(e) => {
+                self.log.push(Access { write: true, addr: address, len: data.len(), data: None });
+                Err(e)
+            }
+            Ok(_) => {
+                self.log.push(Access { write: true, addr: address, len: data.len(), data: Some(data.to_vec()) });
+                Ok(())
+            }
+        }
+    }
     fn genapi(&mut self) -> ControlResult<String> { Err(ControlError::NotOpened) }
     fn enable_streaming(&mut self) -> ControlResult<()> { Err(ControlError::NotOpened) }
     fn disable_streaming(&mut self) -> ControlResult<()> { Err(ControlError::NotOpened) }
@@ -327,7 +410,7 @@ const ALL: &[&str] = &[
 /// Run one real accessor.  `base`/`cap` describe the receiver (`Abrm`: cap = device
 /// capability word; `Sbrm`: base + U3V capability word; others: base).
 /// `None` = receiver cannot be constructed (Sbrm whose capability register is unaddressable).
-fn call(name: &str, base: u64, cap: u64, arg: &Arg, dev: &mut RecDev) -> Option<ControlResult<String>> {
+fn call<D: DeviceControl>(name: &str, base: u64, cap: u64, arg: &Arg, dev: &mut D) -> Option<ControlResult<String>> {
     let (ty, m) = name.split_once('.').unwrap();
     let u = |a: &Arg| match a { Arg::U32(n) => *n, _ => panic!("harness: u32 argument expected") };
     Some(match ty {
@@ -991,6 +1074,60 @@ fn do_rt(cx: &mut Ctx, img: &Image, setter: &str, getter: &str, base: u64, cap: 
     cx.rep.expect(req, imp);
 }
 
+/// Parameters of one scripted device (see `ScriptDev`).
+#[derive(Clone, Copy, Debug)]
+struct Script { seed: u64, k: u64, short: usize, mask: u8, n0: u64 }
+
+/// Run accessor `name` once on the scripted stateful device; oracle (the device's error is
+/// returned unchanged and nothing is called after it; no panic) + model request (`accg`).
+fn do_accg(cx: &mut Ctx, name: &str, base: u64, cap: u64, arg: &Arg, sc: Script, src: &str) {
+    let mut dev = ScriptDev { seed: sc.seed, k: sc.k, short: sc.short, mask: sc.mask, n: sc.n0, log: vec![], failed: None, after_failure: 0 };
+    let r = match catch(|| call(name, base, cap, arg, &mut dev)) {
+        Ok(None) => {
+            cx.rep.count("accg:receiver-not-constructible");
+            return;
+        }
+        Ok(Some(x)) => Ok(x),
+        Err(()) => Err(()),
+    };
+    let res = show_res(&r);
+    let imp = if res == "panic" { "panic".to_string() } else { format!("{res} | {} | {}", show_log(&dev.log), dev.n) };
+    let replay = json!({"op": "accg", "name": name, "base": base.to_string(), "cap": cap.to_string(), "arg": arg.wire(),
+        "seed": sc.seed.to_string(), "k": sc.k, "short": sc.short, "mask": sc.mask, "n0": sc.n0});
+    let canon = format!("accg {name} {base} {cap} {} {:?} {:x}", arg.wire(), sc, fnv_bytes(FNV_INIT, imp.as_bytes()));
+    cx.rep.case(&canon, !dev.log.is_empty() && res != "panic");
+    cx.rep.count(&format!("accg/{src}"));
+    cx.rep.count(&format!("accg-result:{}", if res == "panic" { "panic".to_string() } else if let Some(e) = dev.failed { if dev.log.len() > 1 { format!("device-error-{e}-on-later-call") } else { format!("device-error-{e}") } }
+        else if res.starts_with("err") { res.clone() } else if dev.log.is_empty() { "ok-no-access".into() } else if dev.log.len() > 1 { "ok-multi-call".into() } else { "ok".into() }));
+    cx.rep.count(&format!("accg-read-length:{}", if sc.short == 0 { "nothing-delivered" } else if sc.short < 8 { "short" } else if sc.short < 64 { "short-for-strings" } else { "full" }));
+    // property oracle on the implementation's own outputs
+    if res == "panic" {
+        cx.rep.violation(json!({"accessor": name, "class": "panic"}),
+            &format!("{name} panicked on the scripted device {sc:?}"), replay.clone());
+    } else if let Some(e) = dev.failed {
+        if res != format!("err {e}") || dev.after_failure != 0 {
+            cx.rep.violation(json!({"accessor": name, "class": "device-error"}),
+                &format!("{name}: the device failed with {e}; the accessor returned `{res}` and made {} further call(s)", dev.after_failure),
+                replay.clone());
+        }
+    }
+    let req = format!("c13 accg {name} {base} {cap} {} {} {} {} {} {}", arg.wire(), sc.seed, sc.k, sc.short, sc.mask, sc.n0);
+    if cx.rep.evaluations % 997 == 2 {
+        cx.rep.sample(json!({"request": req, "impl": imp}));
+    }
+    cx.rep.expect(req, imp);
+}
+
+fn gen_script(rng: &mut Rng) -> Script {
+    Script {
+        seed: rng.next_u64(),
+        k: match rng.below(6) { 0 | 1 | 2 => 0, 3 => 1, 4 => 2, _ => rng.range(2, 5) },
+        short: match rng.below(8) { 0 => 0, 1 => 1, 2 => rng.range(1, 8) as usize, 3 => rng.range(8, 64) as usize, _ => 1 << 16 },
+        mask: match rng.below(6) { 0 => 0, 1 => 1, 2 => 0x7F, 3 => 0x1F, _ => 0xFF },
+        n0: rng.below(12),
+    }
+}
+
 // ---------------------------------------------------------------------------------------
 // generators
 // ---------------------------------------------------------------------------------------
@@ -1285,6 +1422,13 @@ fn sweeps(cx: &mut Ctx) {
 }
 
 fn run_replay(cx: &mut Ctx, r: &Value, src: &str) {
+    if r["op"] == "accg" {
+        let sc = Script { seed: r["seed"].as_str().unwrap().parse().unwrap(), k: r["k"].as_u64().unwrap(),
+            short: r["short"].as_u64().unwrap() as usize, mask: r["mask"].as_u64().unwrap() as u8, n0: r["n0"].as_u64().unwrap() };
+        do_accg(cx, r["name"].as_str().unwrap(), r["base"].as_str().unwrap().parse().unwrap(),
+            r["cap"].as_str().unwrap().parse().unwrap(), &Arg::parse(r["arg"].as_str().unwrap()), sc, src);
+        return;
+    }
     let img = Image::from_json(&r["img"]);
     let base: u64 = r["base"].as_str().unwrap().parse().unwrap();
     let cap: u64 = r["cap"].as_str().unwrap().parse().unwrap();
@@ -1357,6 +1501,14 @@ fn main() {
             let (base, cap) = receiver_of(s, &lay);
             let arg = gen_arg(&mut rng, s);
             do_rt(&mut cx, &img, s, gt, base, cap, &arg, "structured");
+        }
+        // every accessor on the scripted stateful device (a second DeviceControl implementation)
+        for name in ALL {
+            let sc = gen_script(&mut rng);
+            let base = if rng.chance(1, 4) { gen_base(&mut rng) } else { rng.below(1 << 40) };
+            let cap = match rng.below(3) { 0 => u64::MAX, 1 => rng.next_u64(), _ => rng.next_u64() & rng.next_u64() };
+            let arg = gen_arg(&mut rng, name);
+            do_accg(&mut cx, name, base, cap, &arg, sc, "scripted-device");
         }
         if round % 128 == 127 {
             cx.rep.flush_model(&args.camdrv);
